@@ -2,6 +2,7 @@
 from lib import cfg
 from rules import common
 
+CRATES = ("agdb",)
 EXPLANATION = (
     "Static analysis of DbImpl's undo machinery: (R13a) the rollback loop can only be left by iterator exhaustion or an "
     "error-propagating return; (R13b) every call of a mutator of graph/aliases/indexes/values in a non-rollback method of "
